@@ -13,7 +13,9 @@ META = {
              "that contains everything loadable at the last completed fsync; append_after_recovery: with an open that cuts the torn tail, "
              "writes after the recovery are loadable; second_crash_recovers (clause Resumes): a chronicler that resumes on a recovered file, "
              "runs any acts and crashes again anywhere loads a prefix of recovered++written that contains everything recovered before and "
-             "everything synced since; run_inv / run_started tie the executable writer model to the session logs the theorems are about. "
+             "everything synced since; zero_tail_of_repaired (clause ZeroTail: a zero-filled tail behind whole blocks — file size on disk, "
+             "data not — changes nothing for the load and is cut by the open; witness zero_tail_wipes_swamp; torn block + zeros by "
+             "correspondence on zero-extension crash images); run_inv / run_started tie the executable writer model to the session logs the theorems are about. "
              "For the code as it is: torn_block_load_error / not_recovers_of_torn_error (a torn payload is a load error, the swamp comes "
              "back empty), append_after_torn_tail_strands (loadEntries_strands: nothing behind a torn block is ever loaded), "
              "torn_create_bricks (a partial file header makes every later Write fail), C02_partial (crash points that leave at most a "
@@ -138,8 +140,9 @@ def spec_scan(ops, impl):
             if not ok:
                 bad.append((i, "crash image %s loads %s (reader: %s); %d entries were fsynced or acknowledged by a completed Sync/Close before the crash point"
                             % (" ".join(f[1:]), r.get("C"), r.get("L"), lo), "recover"))
-        elif f[0] == "tick":
-            want = ",".join("%d=%d" % (k, 100 + k) for k in range(1, int(f[1]) + 1))
+        elif f[0] in ("tick", "tick0", "tickdel"):
+            top = int(f[1]) - (1 if f[0] == "tickdel" else 0)
+            want = ",".join("%d=%d" % (k, 100 + k) for k in range(1, top + 1)) or "-"
             if rep.split("\t")[0] != "tick " + want:
                 bad.append((i, "after a write tick returned, %s of %s saved records are on disk" % (rep, f[1]), "ack"))
     return bad
@@ -206,7 +209,7 @@ def run(ctx):
               "is loaded through v2.FileReader.LoadIndex and chronicler.Load, then a record is appended (Write+Sync+Close) and the file "
               "reloaded; tick lines drive a real swamp through one write tick; non-trivial = img/log/act/tick line; distinct = distinct op lines"),
         samples=[{"op": S.strip_hex(c.ops[i]), "impl": c.impl[i][:160]} for i in range(0, min(len(c.ops), 60), 9) if i < len(c.impl)],
-        evaluations=len(c.ops), distinct_nontrivial=len(set(o for o in c.ops if o.split(" ")[0] in ("img", "log", "act", "tick"))),
+        evaluations=len(c.ops), distinct_nontrivial=len(set(o for o in c.ops if o.split(" ")[0] in ("img", "log", "act", "tick", "tick0", "tickdel"))),
         extra_cov={"correspondence": {"domain": "C02", "cases": len(c.cases), "op_lines": len(c.ops),
                                       "mismatching_lines": len(c.mismatch), "crash_images": imgs, "torn_write_images": torn,
                                       "reader_outcome_of_images": outcomes, "op_histogram": c.op_hist,
